@@ -687,7 +687,7 @@ pub fn run(schedules: &str, out: &str) -> std::io::Result<(usize, usize)> {
         while i < calls.len() {
             // calls up to and including the next one with commit=true share a transaction
             let mut evs = Vec::new();
-            {
+            let committed = catch_unwind(AssertUnwindSafe(|| {
                 let mut txn = doc.transact_mut();
                 loop {
                     let c = &calls[i];
@@ -707,6 +707,16 @@ pub fn run(schedules: &str, out: &str) -> std::io::Result<(usize, usize)> {
                         break;
                     }
                 }
+            }));
+            if let Err(p) = committed {
+                // a panic while committing: recorded as the outcome of the last call; the program stops here
+                if let Some(last) = evs.last_mut() {
+                    last["outcome"] = json!(format!("panic: commit: {}", panic_msg(&p)));
+                }
+                i = calls.len();
+            }
+            if evs.is_empty() {
+                break;
             }
             // after commit (squash, gc): the state must read the same
             let after = {
